@@ -231,3 +231,24 @@ Definition add_trace (l : list position) : out :=
                         let '(inv', (before, bk)) := add_amount_full inv (punits p) (pcost p) in
                         (inv', OL [o_option ON before; o_booking bk] :: acc)) l ([], []) in
   OL [OL (rev (snd r)); o_inv (fst r)].
+
+(* ---- (bld-inv, additive) the remaining Inventory methods beanquery's function library calls, and the BQL functions
+   only() / empty() / filter_currency() on inventories (query_env.py only_inventory, empty_inventory,
+   filter_currency_inventory).  Specification lemmas in Proofs/SrcInvFuncs.v. ---- *)
+(* Inventory.get_currency_units(currency): the total of the numbers held in that currency, at whatever cost,
+   accumulated in dict iteration order from ZERO; an Amount in that currency even when nothing is held *)
+Definition get_currency_units (inv : inventory) (c : currency) : amount :=
+  (fold_left (fun tot (e : entry) => if fst (fst e) =? c then tot + snd e else tot) inv 0, c).
+
+(* Inventory.is_empty(): the dict has no key *)
+Definition is_empty (inv : inventory) : bool := match inv with [] => true | _ :: _ => false end.
+
+(* Inventory(positions) on an iterable of positions (here: positions that came out of an inventory, i.e. entries):
+   add_position one by one into an empty inventory *)
+Definition from_entries (l : list entry) : inventory := fold_left add_entry l [].
+
+Definition inventory_only (c : currency) (inv : inventory) : amount := get_currency_units inv c.
+Definition inventory_empty (inv : inventory) : bool := is_empty inv.
+(* Inventory(pos for pos in inv if pos.units.currency == currency) *)
+Definition inventory_filter_currency (inv : inventory) (c : currency) : inventory :=
+  from_entries (filter (fun e : entry => fst (fst e) =? c) inv).
